@@ -33,6 +33,48 @@ if TYPE_CHECKING:
 _T = TypeVar("_T", bound=date)
 
 
+def _is_later(first: date, second: date) -> bool:
+    """
+    Whether first comes after second on the time line.
+
+    Python compares two aware datetimes that share their tzinfo object by
+    their wall clock times: around a repeated hour that is not the order
+    of the two instants.
+    """
+    if (
+        isinstance(first, datetime)
+        and isinstance(second, datetime)
+        and first.tzinfo is not None
+        and first.tzinfo is second.tzinfo
+    ):
+        offset1 = cast(timedelta, first.utcoffset())
+        offset2 = cast(timedelta, second.utcoffset())
+
+        if offset1 != offset2:
+            wall1 = datetime(
+                first.year,
+                first.month,
+                first.day,
+                first.hour,
+                first.minute,
+                first.second,
+                first.microsecond,
+            )
+            wall2 = datetime(
+                second.year,
+                second.month,
+                second.day,
+                second.hour,
+                second.minute,
+                second.second,
+                second.microsecond,
+            )
+
+            return wall1 - wall2 > offset1 - offset2
+
+    return first > second
+
+
 class Interval(Duration, Generic[_T]):
     """
     An interval of time between two datetimes.
@@ -61,7 +103,7 @@ class Interval(Duration, Generic[_T]):
         ):
             raise TypeError("can't compare offset-naive and offset-aware datetimes")
 
-        if absolute and start > end:
+        if absolute and _is_later(start, end):
             end, start = start, end
 
         _start = start
@@ -185,7 +227,7 @@ class Interval(Duration, Generic[_T]):
                 _end = cast(_T, date(end.year, end.month, end.day))
 
         self._invert = False
-        if start > end:
+        if _is_later(start, end):
             self._invert = True
 
             if absolute:
